@@ -73,7 +73,14 @@ func (g *gen) multiCases(id int, cfg cfgT, n int, msgsPer int) []*caseT {
 			msgs = append(msgs, g.clientMsg(&cfg))
 		}
 		msgs = append(msgs, mSync())
+		if cfg.auth != "none" {
+			// the password travels in its own segment: other connections start up in between
+			msgs = append([][]byte{mPassword(cfg.authPW)}, msgs...)
+		}
 		cs := lockCase(0, "multi", cfg, su, msgs)
+		if cfg.auth != "none" {
+			cs.pre = 2
+		}
 		cs.id = fmt.Sprintf("%d.%d", id, k)
 		out = append(out, cs)
 	}
@@ -97,6 +104,11 @@ func runC15(c *runCfg) error {
 		cfg.params = [][2][]byte{{[]byte("application_name"), []byte("verif")}}
 		if g.chance(0.3) {
 			cfg.mws = []bool{true, true}
+		}
+		if id%3 == 1 {
+			// password authentication: the connections overlap inside the authentication phase as well
+			cfg.auth = []string{"pw", "accept"}[(id/3)%2]
+			cfg.authPW = []byte("shared secret")
 		}
 		n := 2 + g.rng.Intn(7)
 		if id%10 == 9 {
